@@ -291,6 +291,29 @@ func ruleInferredOrderDedup(c *Ctx, rule string) {
 	if ft == nil {
 		return
 	}
+	// appends of a name to PropertyOrder that are not decided by the name-conflict resolution (C04/json-name-conflicts):
+	// a name entered by one of them can be entered again later
+	var unchecked []ssa.Instruction
+	c.eachFam(ft, func(i ssa.Instruction) {
+		st, ok := i.(*ssa.Store)
+		if !ok {
+			return
+		}
+		fa, ok := st.Addr.(*ssa.FieldAddr)
+		if !ok || c.fieldName(fa.X.Type(), fa.Field) != "Schema.PropertyOrder" {
+			return
+		}
+		call, ok := st.Val.(*ssa.Call)
+		if !ok || core.CalleeKey(&call.Call) != "builtin.append" || !c.mentionsField(call.Call.Args[0], "Schema.PropertyOrder", 3) {
+			return
+		}
+		for _, g := range controlGuards(st) {
+			if !isRangeCond(g.Cond) && sliceMentionsField(g.Cond, "Index") && (sliceMentionsField(g.Cond, "name") || sliceMentionsField(g.Cond, "Properties")) {
+				return
+			}
+		}
+		unchecked = append(unchecked, st)
+	})
 	// the store of a de-duplicated slice into Schema.PropertyOrder: value does not come from append(load PropertyOrder, ...)
 	n := 0
 	c.eachFam(ft, func(i ssa.Instruction) {
@@ -322,13 +345,129 @@ func ruleInferredOrderDedup(c *Ctx, rule string) {
 			if isErrNilTest(g.Cond) || isRangeCond(g.Cond) || !skippable(g, st) {
 				continue
 			}
+			// a flag that is true whenever one of the unchecked appends has run
+			if g.Pol && st.Parent() == ft && flagTrueAfterAll(g.Cond, unchecked, g.At.Block()) {
+				continue
+			}
 			extra = append(extra, c.pos(g.At))
 		}
-		c.R.Check(len(extra) == 0, rule, "dedup:unconditional", c.pos(st), "the inferred PropertyOrder is de-duplicated whenever it has more than one entry", fmt.Sprintf("the de-duplication of the inferred PropertyOrder is additionally conditional (guards at %v): two fields with one JSON name can leave a duplicate entry, and marshaling the inferred schema then fails", extra))
+		c.R.Check(len(extra) == 0, rule, "dedup:unconditional", c.pos(st), "the inferred PropertyOrder is de-duplicated whenever a name can have been entered twice", fmt.Sprintf("the de-duplication of the inferred PropertyOrder is additionally conditional (guards at %v) on something that does not follow from a name having been entered outside the name-conflict resolution: a duplicate entry can remain, and marshaling the inferred schema then fails", extra))
 	})
 	if n == 0 {
-		c.R.Bad(rule, "dedup:present", c.P.Pos(ft.Pos()), "inference never replaces PropertyOrder by a de-duplicated list")
+		if len(unchecked) == 0 {
+			c.R.OK(rule, "dedup:present", c.P.Pos(ft.Pos()), "every name enters PropertyOrder through the name-conflict resolution: no duplicate can arise")
+		} else {
+			c.R.Bad(rule, "dedup:present", c.P.Pos(ft.Pos()), "inference never replaces PropertyOrder by a de-duplicated list although names are entered outside the name-conflict resolution")
+		}
 	}
+}
+
+// flagTrueAfterAll: cond is a boolean local variable (constants merged by phis) that evaluates to true at the
+// block `at` on every path that passes through one of the given instructions (all in the same function).
+func flagTrueAfterAll(cond ssa.Value, after []ssa.Instruction, at *ssa.BasicBlock) bool {
+	web := map[*ssa.Phi]bool{}
+	okWeb := true
+	var collect func(v ssa.Value)
+	collect = func(v ssa.Value) {
+		switch x := v.(type) {
+		case *ssa.Phi:
+			if web[x] {
+				return
+			}
+			web[x] = true
+			for _, e := range x.Edges {
+				collect(e)
+			}
+		case *ssa.Const:
+			if !isBoolType(x.Type()) {
+				okWeb = false
+			}
+		default:
+			okWeb = false
+		}
+	}
+	collect(cond)
+	if !okWeb || len(web) == 0 {
+		return false
+	}
+	type tri int // 0 unknown, 1 true, 2 false
+	eval := func(v ssa.Value, env map[*ssa.Phi]tri) tri {
+		switch x := v.(type) {
+		case *ssa.Const:
+			if x.Value != nil && x.Value.String() == "true" {
+				return 1
+			}
+			return 2
+		case *ssa.Phi:
+			return env[x]
+		}
+		return 0
+	}
+	sig := func(b *ssa.BasicBlock, env map[*ssa.Phi]tri) string {
+		s := fmt.Sprint(b.Index)
+		for _, blk := range b.Parent().Blocks {
+			for _, ins := range blk.Instrs {
+				if p, ok := ins.(*ssa.Phi); ok && web[p] {
+					s += fmt.Sprintf(",%d", env[p])
+				}
+			}
+		}
+		return s
+	}
+	for _, a := range after {
+		if a.Parent() != at.Parent() {
+			return false
+		}
+		seen := map[string]bool{}
+		ok := true
+		var walk func(pred, b *ssa.BasicBlock, env map[*ssa.Phi]tri)
+		walk = func(pred, b *ssa.BasicBlock, env map[*ssa.Phi]tri) {
+			if !ok {
+				return
+			}
+			// parallel evaluation of the phis of b for the edge pred -> b
+			next := map[*ssa.Phi]tri{}
+			for k, v := range env {
+				next[k] = v
+			}
+			pi := -1
+			for k, p := range b.Preds {
+				if p == pred {
+					pi = k
+				}
+			}
+			for _, ins := range b.Instrs {
+				p, isPhi := ins.(*ssa.Phi)
+				if !isPhi {
+					break
+				}
+				if web[p] && pi >= 0 {
+					next[p] = eval(p.Edges[pi], env)
+				}
+			}
+			if b == at {
+				if eval(cond, next) != 1 {
+					ok = false
+				}
+				return
+			}
+			k := sig(b, next)
+			if seen[k] {
+				return
+			}
+			seen[k] = true
+			for _, s := range b.Succs {
+				walk(b, s, next)
+			}
+		}
+		for _, s := range a.Block().Succs {
+			walk(a.Block(), s, map[*ssa.Phi]tri{})
+		}
+		if !ok {
+			return false
+		}
+	}
+	return true
 }
 
 func isRangeCond(cond ssa.Value) bool {
